@@ -5,7 +5,7 @@ from openpyxl import load_workbook
 from openpyxl.utils import get_column_letter
 from openpyxl.worksheet.formula import ArrayFormula
 
-from excel2pycl.src.cell import Cell
+from excel2pycl.src.cell import Cell, TextConstant
 from excel2pycl.src.exceptions import E2PyclSafetyException, E2PyclParserException
 from excel2pycl.src.handle_cell import handle_cell
 
@@ -163,6 +163,9 @@ class Excel:
                     # обрабатываем ArrayFormula, считываем из него значение формулы
                     if isinstance(cell.value, ArrayFormula):
                         rows_data.append(cell.value.text.strip())
+                    elif cell.data_type == 's' and isinstance(cell.value, str) and cell.value.startswith('='):
+                        # a text cell: its content is a constant even though it looks like a formula
+                        rows_data.append(TextConstant(cell.value))
                     else:
                         rows_data.append(cell.value)
                 worksheet_data.append(rows_data)
